@@ -4,6 +4,7 @@
    Data layer: coq/gen/GeneratedCheck_C03.v proves on every run that the constants and tables of the code
    (printed by the gendata translator from /repo's current tree) are the documented ones. *)
 From Fzf Require Import Prelude AlgoSpec AlgoModel AlgoBasics PrefilterProofs V1Proofs OccursBasics AnchoredProofs ExactProofs.
+From Fzf Require Import V2Facts V2ScanBasics V2ScanPhase2 V2ScanProofs V2Final.
 Open Scope Z_scope.
 
 (* calculateScore walks the greedy alignment of [sidx, eidx) and returns exactly its documented score *)
@@ -23,6 +24,35 @@ Theorem v1_scored_as_reported : forall co sc cs nm fwd ib text pat wp s e score 
              pos = (if wp then Some ps else None).
 Proof. exact v1_score_proof. Qed.
 Print Assumptions v1_scored_as_reported.
+
+(* FuzzyMatchV2 (pattern of two or more characters, scratch memory sufficient): score AND end position are
+   exactly what the documented recurrence gives when evaluated naively over the WHOLE line with unbounded
+   integers — the windowing by the ASCII pre-filter, the per-row first-occurrence cut-off, the flat scratch
+   matrices and the first/last-maximum rule are all unobservable. *)
+Theorem v2_eq_naive : forall co sc cs nm fwd ib text pat wp cap s e score pos,
+  (2 <= length pat)%nat -> 0 <= s_bw sc /\ 0 <= s_bd sc ->
+  (ib = true -> Forall (fun c => 0 <= c < 128) text) -> (forall c, c < 192 -> co_norm co c = c) ->
+  match cap with Some c => c <? Z.of_nat (length text) * Z.of_nat (length pat) | None => false end = false ->
+  fuzzy_v2 co sc cs nm fwd ib text pat wp cap = Ok (Match s e score pos) ->
+  naive_dp co sc cs nm fwd text pat = Some (score, e).
+Proof. exact v2_score_eq_naive_final. Qed.
+Print Assumptions v2_eq_naive.
+
+(* one-character patterns: the score is 16 + 2 * (bonus of the reported position); which occurrence is reported
+   is the maximum when scanning backward and the fast-path choice when scanning forward (known finding K2) *)
+Theorem v2_single_scored : forall co sc cs nm fwd ib text p wp cap s e score pos,
+  scheme_nonneg sc -> (forall c, c < 192 -> co_norm co c = c) ->
+  (forall c, cap = Some c -> Z.of_nat (length text) <= c) ->
+  fuzzy_v2 co sc cs nm fwd ib text [p] wp cap = Ok (Match s e score pos) ->
+  exists lo hi, ascii_fuzzy_index ib text [p] cs = Ok (Some (lo, hi)) /\ (lo <= s < hi)%nat /\
+    ((lo < s)%nat \/ s = O -> score = scoreMatch + 2 * bonus_at co sc text s).
+Proof.
+  intros co sc cs nm fwd ib text p wp cap s e score pos Hs Hn Hc H.
+  destruct (v2_single_sound_proof co sc cs nm fwd ib text p wp cap s e score pos Hs Hn Hc H)
+    as [_ [_ [_ [_ [_ [lo [hi [A [B [_ [_ E]]]]]]]]]]].
+  exists lo, hi. repeat split; try exact A; try (apply B); exact E.
+Qed.
+Print Assumptions v2_single_scored.
 
 (* exact, prefix and suffix terms are scored as the occurrence they report *)
 Theorem exact_scored_as_reported : forall co sc cs nm fwd is_bytes text pat s e score pos,
